@@ -48,9 +48,14 @@ value, non-zero), the UINT32 length of the field array (= `fieldArray.length`); 
 zero bytes that bring the header to a multiple of 8; `rawHeader` / `rawPadding` / `rawBody` are these
 parts; the field array is the specification encoding of exactly the non-None attributes of the
 class's `_headerAttrs` (plus `unix_fds` when descriptors were collected), each once, with the typing of
-`m.toSpec`; the whole is at most `maxLen` bytes; and the strict decoder of the specification accepts
-the bytes and returns that message (the 2^26 limit on the header array is the one thing `_marshal` does
-not enforce - it is a premise of the last clause). -/
+`m.toSpec`; EVERY FIELD HAS THE TYPE THE SPECIFICATION'S HEADER-FIELD TABLE GIVES ITS CODE (`Spec.fieldType`: PATH 'o',
+INTERFACE/MEMBER/ERROR_NAME/DESTINATION/SENDER 's', REPLY_SERIAL/UNIX_FDS 'u', SIGNATURE 'g' - a table of the
+specification in Msg/SpecMsg.lean, independent of `_marshal`'s wrapper typing: dropping the ObjectPath wrapper or
+typing REPLY_SERIAL 'i' breaks this conjunct); the fields the specification REQUIRES for the message type are
+present (when the `path` argument is given: `path=None` is outside the documented argument types and builds a call
+without PATH); the whole is at most `maxLen` bytes; and the strict decoder of the specification - which checks sizes,
+field types and required fields - accepts the bytes and returns that message (the 2^26 limit on the header array is
+the one thing `_marshal` does not enforce: a premise of the last clause). -/
 theorem marshal_wellformed {β : Type} (C : BodyCodec β) (na : Char → Bool) (maxLen : Nat)
     (hmax : maxLen ≤ Spec.maxMessage) (st st' : St) (c : Call β) (m : Msg β)
     (hs : 1 ≤ st.nextSerial) (hsig : SigNoNul c)
@@ -73,8 +78,10 @@ theorem marshal_wellformed {β : Type} (C : BodyCodec β) (na : Char → Bool) (
       sm.fields.map (·.1) =
         (liveEntries m.attrs (Gen.Message.tables.entries m.cls (hasFds m))).map (·.2.1) ∧
       (sm.fields.map (·.1)).Nodup ∧ sm.fields.all Field.wf = true ∧
+      (∀ f ∈ sm.fields, Spec.fieldType f.1 = some f.2.ty) ∧
+      (c.pathGiven → ∀ code ∈ Spec.requiredCodes (Gen.Message.tables.messageType m.cls), code ∈ sm.fields.map (·.1)) ∧
       m.raw.length ≤ maxLen ∧
-      ((Spec.fieldArray sm).length ≤ Spec.maxArray → Spec.decodeMsg m.raw = some sm) :=
+      (c.pathGiven → (Spec.fieldArray sm).length ≤ Spec.maxArray → Spec.decodeMsg m.raw = some sm) :=
   Main.marshal_wellformed Gen.Message.tables tables_ok C na maxLen hmax st st' c m hs hsig h
 
 /-- **Fresh non-zero serials.**  Over any run of constructor calls on the shared counter (failing calls
@@ -96,13 +103,14 @@ theorem serial_init : 1 ≤ (St.init Gen.Message.tables).nextSerial := by decide
 message succeeds and returns an object of the same class with the same serial, both flags, every one of
 the nine header attributes (equal as Python values: `UInt32(5) == 5`), the same three raw parts, and -
 when there is a non-empty signature - the decoded body, provided the body codec round-trips that body
-(`hC`: the hypothesis that C01 discharges; `fdsAfter` = the descriptor list after marshalling). -/
+(`hC`: whatever the codec produced for this body decodes, with the descriptor list `fdsAfter` handed to
+parseMessage, to `decoded` - discharged by C01 in `parse_marshal_with_C01` / `parse_marshal_with_C01_none`). -/
 theorem parse_marshal {β : Type} (C : BodyCodec β) (na : Char → Bool) (maxLen : Nat)
     (st st' : St) (c : Call β) (m : Msg β) (hs : 1 ≤ st.nextSerial) (hsig : SigNoNul c)
     (h : construct Gen.Message.tables C na maxLen st c = (st', .ok m))
     (fdsAfter : Option (List PyVal)) (decoded : β)
     (hC : ∀ sg, m.attrs .signature = .str .plain sg → sg ≠ [] →
-        ∃ bytes, C.marshal sg m.body c.oob = .ok (bytes, fdsAfter) ∧ C.unmarshal sg bytes true fdsAfter = .ok decoded) :
+        ∃ bytes fds', C.marshal sg m.body c.oob = .ok (bytes, fds') ∧ C.unmarshal sg bytes true fdsAfter = .ok decoded) :
     ∃ m' : Msg β, parseMessage Gen.Message.tables C m.raw fdsAfter = .ok m' ∧
       m'.cls = m.cls ∧ m'.serial = m.serial ∧ m'.expectReply = m.expectReply ∧ m'.autoStart = m.autoStart ∧
       (∀ a, m'.attrs a = plain (m.attrs a)) ∧
@@ -115,8 +123,7 @@ model of txdbus's own `marshal` / `unmarshal` (`wireCodec`, Wire/Code.lean) and 
 place of `hC`.  For a method call with `oobFDs=[]` whose signature is the rendering of types `ts` without empty
 structs and whose body conforms to it in the sense of C01 (`Code.RepFields`, distinct hashable dict keys, values
 within the limits of the wire format), `parseMessage(m.rawMessage, fds collected)` returns the call with the
-normalised body (tuples as lists, wrappers as plain values, ...).  (C01 states its theorem for `oobFDs=[]`; the
-three other constructors call `_marshal` with `oobFDs=None`, for them `parse_marshal` keeps `hC` as its premise.) -/
+normalised body (tuples as lists, wrappers as plain values, ...).  (`oobFDs=None`: next theorem.) -/
 theorem parse_marshal_with_C01 (na : Char → Bool) (maxLen : Nat) (st st' : St)
     (a : CallArgs PyVal) (m : Msg PyVal) (hs : 1 ≤ st.nextSerial)
     (ts : List Ty) (pv : PyVal) (items : List PyVal) (vs : List Val) (fdl : List PyVal) (bs : Bytes) (fuel : Nat)
@@ -133,8 +140,29 @@ theorem parse_marshal_with_C01 (na : Char → Bool) (maxLen : Nat) (st st' : St)
   parse_marshal_wire Gen.Message.tables tables_ok na maxLen st st' a m hs ts pv items vs fdl bs fuel hsig hne hbody
     hoob hts hitems hrep hkeys henc hfuel h
 
+/-- The same for ANY of the four constructors called without a descriptor list (`oobFDs=None`: the default of
+`MethodCallMessage`, and what `MethodReturnMessage`, `ErrorMessage`, `SignalMessage` always pass): the body conforms
+to `ts` without descriptors (`Code.RepFields … false …`); `lall` is whatever list of received descriptors the
+protocol hands to `parseMessage`.  (C01's proof of `marshal_eq_spec` re-run with `fd = false`, Proofs/Msg/WithWire.lean.) -/
+theorem parse_marshal_with_C01_none (na : Char → Bool) (maxLen : Nat) (st st' : St)
+    (c : Call PyVal) (m : Msg PyVal) (hs : 1 ≤ st.nextSerial)
+    (ts : List Ty) (pv : PyVal) (items : List PyVal) (vs : List Val) (lall : List PyVal) (bs : Bytes) (fuel : Nat)
+    (hsig : c.signature = some (renderAll ts)) (hne : renderAll ts ≠ []) (hbody : c.body = some pv)
+    (hoob : c.oob = none)
+    (hts : allWF ts = true) (hitems : Code.topItems pv = .ok items)
+    (hrep : Code.RepFields lall vs false ts items 0 0) (hkeys : Code.KeysOKList items)
+    (henc : Spec.encodeAll Code.genAlign (endianOf true) ts vs 0 = some bs) (hfuel : depthAll vs ≤ fuel)
+    (h : construct Gen.Message.tables (wireCodec fuel) na maxLen st c = (st', .ok m)) :
+    ∃ m' : Msg PyVal, parseMessage Gen.Message.tables (wireCodec fuel) m.raw (some lall) = .ok m' ∧
+      m'.cls = m.cls ∧ m'.serial = m.serial ∧ m'.expectReply = m.expectReply ∧ m'.autoStart = m.autoStart ∧
+      (∀ x, m'.attrs x = plain (m.attrs x)) ∧
+      m'.body = some (.list (Code.plainList items)) ∧ m'.rawBody = bs ∧ m.rawBody = bs :=
+  parse_marshal_wire_none Gen.Message.tables tables_ok na maxLen st st' c m hs ts pv items vs lall bs fuel hsig hne hbody
+    hoob hts hitems hrep hkeys henc hfuel h
+
 /-- **Parsing what another implementation would send.**  Let `w` be any valid message of the
-specification (either byte order; `Spec.encodeMsg w` are its bytes) whose field list is, in any order,
+specification (`SpecMsg.valid`: sizes, the header-field type table, the required fields of its type; either byte
+order; `Spec.encodeMsg w` are its bytes) whose field list is, in any order,
 the known fields `known` (no attribute addressed twice) together with any number of fields `extra`
 whose codes `_hcode` does not know.  Then `parseMessage` succeeds with the class of `w`'s type code, its
 serial, both flag bits, every attribute = the value of the known field that addresses it (None when
@@ -146,7 +174,6 @@ theorem parse_foreign {β : Type} (C : BodyCodec β) (w : SpecMsg) (hw : w.valid
     (known extra : List Field) (hperm : w.fields.Perm (known ++ extra))
     (hextra : ∀ f ∈ extra, lookupAttr Gen.Message.tables f.1 = none)
     (hknown : (known.map (fun f => lookupAttr Gen.Message.tables f.1)).Nodup)
-    (hsigty : ∀ hv, fieldFor Gen.Message.tables known .signature = some hv → hv.ty = .g)
     (fds : Option (List PyVal)) (hfd : ∀ f ∈ w.fields, f.2.ty = .h → fds ≠ none)
     (decoded : β)
     (hC : ∀ sg, fieldFor Gen.Message.tables known .signature = some (.text .g sg) → sg ≠ [] →
@@ -161,8 +188,92 @@ theorem parse_foreign {β : Type} (C : BodyCodec β) (w : SpecMsg) (hw : w.valid
                  | some (.text _ (_ :: _)) => some decoded
                  | _ => none) ∧
       m'.rawBody = w.body ∧ (m'.rawHeader ++ m'.rawPadding ++ m'.rawBody) = Spec.encodeMsg w :=
-  Main.parse_foreign Gen.Message.tables tables_ok C w hw cls hcls known extra hperm hextra hknown hsigty fds hfd
+  Main.parse_foreign Gen.Message.tables tables_ok C w hw cls hcls known extra hperm hextra hknown fds hfd
     decoded hC
+
+/-- `parse_foreign` with nothing assumed about the body codec: txdbus's own codec model (`wireCodec`) and C02's
+decoder theorem (`Code.unmarshal_eq_spec`) in the place of `hC`.  The body of `w` is the specification encoding, in
+`w`'s byte order, of values `vs` of types `ts` (no empty structs) and its SIGNATURE field says `ts`; the parsed body
+is the decoding of `vs`. -/
+theorem parse_foreign_with_C02 (w : SpecMsg) (hw : w.valid = true)
+    (cls : MsgClass) (hcls : w.mtype = Gen.Message.tables.messageType cls)
+    (known extra : List Field) (hperm : w.fields.Perm (known ++ extra))
+    (hextra : ∀ f ∈ extra, lookupAttr Gen.Message.tables f.1 = none)
+    (hknown : (known.map (fun f => lookupAttr Gen.Message.tables f.1)).Nodup)
+    (fds : Option (List PyVal)) (hfd : ∀ f ∈ w.fields, f.2.ty = .h → fds ≠ none)
+    (ts : List Ty) (vs : List Val) (values : List PyVal) (fuel : Nat)
+    (hsigf : fieldFor Gen.Message.tables known .signature = some (.text .g (renderAll ts))) (hne : renderAll ts ≠ [])
+    (hts : allWF ts = true)
+    (henc : Spec.encodeAll Code.genAlign w.endian ts vs 0 = some w.body)
+    (hval : Code.fromSpecFields fds vs ts = some values) (hfuel : depthAll vs ≤ fuel) :
+    ∃ m' : Msg PyVal, parseMessage Gen.Message.tables (wireCodec fuel) (Spec.encodeMsg w) fds = .ok m' ∧
+      m'.cls = cls ∧ m'.serial = w.serial ∧
+      m'.expectReply = decide (w.flags % 2 = 0) ∧ m'.autoStart = decide (w.flags / 2 % 2 = 0) ∧
+      (∀ a, m'.attrs a = match fieldFor Gen.Message.tables known a with
+                         | some hv => pyOf fds hv
+                         | none => .none) ∧
+      m'.body = some (.list values) ∧ m'.rawBody = w.body :=
+  parse_foreign_wire Gen.Message.tables tables_ok w hw cls hcls known extra hperm hextra hknown fds hfd ts vs values fuel
+    hsigf hne hts henc hval hfuel
+
+/-- **"... or the spec-conformant bytes another implementation would produce for the same message, in either byte
+order".**  For a constructed message `m` with specification message `sm`: whatever valid message `w` of the same type
+carries `sm`'s fields in any order, together with any fields of unknown code - either byte order, its own serial,
+flags and body encoding - `parseMessage (Spec.encodeMsg w)` returns `m`'s class and every header attribute of `m`. -/
+theorem parse_foreign_of_constructed {β : Type} (C : BodyCodec β) (na : Char → Bool) (maxLen : Nat) (st st' : St)
+    (c : Call β) (m : Msg β) (h : construct Gen.Message.tables C na maxLen st c = (st', .ok m)) :
+    ∃ sm : SpecMsg, m.toSpec Gen.Message.tables = some sm ∧
+      ∀ (w : SpecMsg) (extra : List Field), w.valid = true → w.mtype = sm.mtype →
+        w.fields.Perm (sm.fields ++ extra) → (∀ f ∈ extra, lookupAttr Gen.Message.tables f.1 = none) →
+        ∀ (fds : Option (List PyVal)), (∀ f ∈ w.fields, f.2.ty = .h → fds ≠ none) →
+        ∀ (decoded : β), (∀ sg, fieldFor Gen.Message.tables sm.fields .signature = some (.text .g sg) → sg ≠ [] →
+            C.unmarshal sg w.body (decide (w.endian = .little)) fds = .ok decoded) →
+        ∃ m' : Msg β, parseMessage Gen.Message.tables C (Spec.encodeMsg w) fds = .ok m' ∧
+          m'.cls = m.cls ∧ m'.serial = w.serial ∧
+          m'.expectReply = decide (w.flags % 2 = 0) ∧ m'.autoStart = decide (w.flags / 2 % 2 = 0) ∧
+          (∀ a, m'.attrs a = plain (m.attrs a)) ∧
+          m'.body = (if truthy (m.attrs .signature) then some decoded else none) ∧ m'.rawBody = w.body :=
+  Main.parse_foreign_of_constructed Gen.Message.tables tables_ok C na maxLen st st' c m h
+
+/-- **The constructed object is the message the arguments describe**: the class of the constructor that was called, the
+REQUESTED `expectReply` / `autoStart` (True for the three classes without these arguments), every argument under its own
+attribute and nothing else, the body argument; `rawBody` is what the body codec returned for (signature, body, oobFDs)
+and `unix_fds` the number of descriptors it collected.  (Ties the theorems about `m` to the call `c`.) -/
+theorem constructed_from_arguments {β : Type} (C : BodyCodec β) (na : Char → Bool) (maxLen : Nat) (st st' : St)
+    (c : Call β) (m : Msg β) (h : construct Gen.Message.tables C na maxLen st c = (st', .ok m)) :
+    (∀ a, c = .methodCall a →
+       m.cls = .methodCall ∧ m.expectReply = a.expectReply ∧ m.autoStart = a.autoStart ∧
+       m.attrs .path = strAttr a.path ∧ m.attrs .member = strAttr a.member ∧
+       m.attrs .interface = strAttr a.interface ∧ m.attrs .destination = strAttr a.destination ∧
+       m.attrs .signature = strAttr a.signature ∧
+       m.attrs .errorName = .none ∧ m.attrs .replySerial = .none ∧ m.attrs .sender = .none) ∧
+    (∀ a, c = .methodReturn a →
+       m.cls = .methodReturn ∧ m.expectReply = true ∧ m.autoStart = true ∧
+       m.attrs .replySerial = .int .uint32 a.replySerial ∧ m.attrs .destination = strAttr a.destination ∧
+       m.attrs .signature = strAttr a.signature ∧
+       m.attrs .path = .none ∧ m.attrs .member = .none ∧ m.attrs .interface = .none ∧
+       m.attrs .errorName = .none ∧ m.attrs .sender = .none) ∧
+    (∀ a, c = .error a →
+       m.cls = .error ∧ m.expectReply = true ∧ m.autoStart = true ∧
+       m.attrs .errorName = strAttr a.errorName ∧ m.attrs .replySerial = .int .uint32 a.replySerial ∧
+       m.attrs .destination = strAttr a.destination ∧ m.attrs .signature = strAttr a.signature ∧
+       m.attrs .sender = strAttr a.sender ∧
+       m.attrs .path = .none ∧ m.attrs .member = .none ∧ m.attrs .interface = .none) ∧
+    (∀ a, c = .signal a →
+       m.cls = .signal ∧ m.expectReply = true ∧ m.autoStart = true ∧
+       m.attrs .path = strAttr a.path ∧ m.attrs .member = strAttr a.member ∧
+       m.attrs .interface = strAttr a.interface ∧ m.attrs .destination = strAttr a.destination ∧
+       m.attrs .signature = strAttr a.signature ∧
+       m.attrs .errorName = .none ∧ m.attrs .replySerial = .none ∧ m.attrs .sender = .none) ∧
+    m.body = c.body ∧
+    (match c.signature with
+     | some (ch :: cs) =>
+       ∃ fds', C.marshal (ch :: cs) c.body c.oob = .ok (m.rawBody, fds') ∧
+         m.attrs .unixFds = (match fds' with
+                             | some (fd :: l) => .int .plain (((fd :: l).length : Nat) : Nat)
+                             | _ => .none)
+     | _ => m.rawBody = [] ∧ m.attrs .unixFds = .none) :=
+  Main.constructed_from_arguments Gen.Message.tables tables_ok C na maxLen st st' c m h
 
 /-- **What cannot be constructed.**  If a constructor returns a message then the message is at most
 `maxLen` bytes long (for the classes of message.py: `maxLen = 2^27`), and its path, interface, member,
@@ -220,6 +331,20 @@ message of the specification: the premises of `parse_foreign` are satisfiable. -
 example :
     (SpecMsg.valid ⟨.big, 2, 1, 7, [(200, .num .y 5), (5, .num .u 3), (6, .text .s ":1.2".toList)], []⟩) = true := by
   decide +kernel
+
+/-- The joint premises of `parse_foreign` are satisfiable: a big-endian method return with flags 5 whose field list is
+[unknown code 200, REPLY_SERIAL, DESTINATION] = a permutation of `known ++ extra`. -/
+example :
+    let w : SpecMsg := ⟨.big, 2, 5, 7, [(200, .num .y 5), (5, .num .u 3), (6, .text .s ":1.2".toList)], []⟩
+    let known : List Field := [(5, .num .u 3), (6, .text .s ":1.2".toList)]
+    let extra : List Field := [(200, .num .y 5)]
+    w.valid = true ∧ w.mtype = Gen.Message.tables.messageType .methodReturn ∧
+      w.fields.Perm (known ++ extra) ∧ (∀ f ∈ extra, lookupAttr Gen.Message.tables f.1 = none) ∧
+      (known.map (fun f => lookupAttr Gen.Message.tables f.1)).Nodup ∧
+      (∀ f ∈ w.fields, f.2.ty = .h → (none : Option (List PyVal)) ≠ none) ∧
+      fieldFor Gen.Message.tables known .signature = none := by
+  refine ⟨by decide +kernel, by decide, ?_, by decide, by decide, by decide, by decide⟩
+  exact (List.perm_append_comm (l₁ := [(200, HVal.num .y 5)]) (l₂ := [(5, HVal.num .u 3), (6, HVal.text .s ":1.2".toList)]))
 
 /-- The invalid names of the statement are refused by the constructors (an instance of `cannot_construct`). -/
 example :
@@ -279,7 +404,11 @@ end Txdbus.Msg
 #print axioms Txdbus.Msg.serial_init
 #print axioms Txdbus.Msg.parse_marshal
 #print axioms Txdbus.Msg.parse_marshal_with_C01
+#print axioms Txdbus.Msg.parse_marshal_with_C01_none
 #print axioms Txdbus.Msg.parse_foreign
+#print axioms Txdbus.Msg.parse_foreign_with_C02
+#print axioms Txdbus.Msg.parse_foreign_of_constructed
+#print axioms Txdbus.Msg.constructed_from_arguments
 #print axioms Txdbus.Msg.cannot_construct
 #print axioms Txdbus.Msg.spec_decode_encode
 #print axioms Txdbus.Msg.prefix_parse_ignores_flags
